@@ -280,6 +280,14 @@ def _sessions(rng, big):
                          {"gate": name, "angles": s0["angles"], "mode": "bindof", "of": 3, "assume": "plain"}]
                 steps += [["read", 3], ["read", 4], ["read", 0]]
             out.append(_S(objs, steps))
+            # G: gates derived by replace_params from ONE long-lived concrete gate object whose matrix was read before
+            if name != "Delay":
+                a = _rand_spec(rng, name, mode=rng.choice(["float", "spfloat", "bound"]))
+                a["angles"] = [_rat_point(rng) for _ in range(k)]
+                d1 = dict(_sibling(rng, dict(a, mode="float")), gate=name, mode="replaceof", of=0)
+                d2 = {"gate": name, "angles": [_any_point(rng) for _ in range(k)], "mode": "replaceof", "of": 0}
+                out.append(_S([a, d1, d2], [["read", 0], ["read", 1], ["read", 2], ["read", 0], ["rebuild", 1], ["read", 1]]
+                              if rng.random() < 0.7 else [["read", 1], ["read", 0], ["read", 2], ["read", 1]]))
         # D: group law at the end of a history
         for name in ONE_PARAM_GROUP:
             for variant in (0, 1):
@@ -309,6 +317,12 @@ def _sessions(rng, big):
                     {"gate": name, "angles": [_pt_add(pa, pb)], "sum": [pa, pb], "mode": "bindof", "of": 0}]
             out.append(_S(objs, [["read", 1], ["read", 2], ["read", 3], ["law", 1, 2, 3], ["read", 0], ["rebuild", 1],
                                  ["law", 1, 2, 3]]))
+            # … and derived by replace_params from ONE long-lived concrete gate object that has been read
+            objs = [{"gate": name, "angles": [_rat_point(rng)], "mode": "float"},
+                    {"gate": name, "angles": [pa], "mode": "replaceof", "of": 0},
+                    {"gate": name, "angles": [pb], "mode": "replaceof", "of": 0},
+                    {"gate": name, "angles": [_pt_add(pa, pb)], "sum": [pa, pb], "mode": "replaceof", "of": 0}]
+            out.append(_S(objs, [["read", 0], ["read", 1], ["read", 2], ["read", 3], ["law", 1, 2, 3], ["read", 0]]))
         # F: longer random histories over several gates
         for _ in range(6):
             names = [rng.choice(FIXED + ["Delay"] + [n for n in PARAMETRIC if n != "U3"]) for _ in range(5)]
@@ -700,6 +714,9 @@ def _realise(spec, pool=None):
     if mode == "bindof":
         g0, _ = pool(spec["of"])
         return g0.bind(dict(zip(ts, th))), None
+    if mode == "replaceof":  # derived from a long-lived CONCRETE gate object (whose matrix may have been read before)
+        g0, _ = pool(spec["of"])
+        return g0.replace_params(tuple(th)), None
     raise AssertionError("unknown mode " + str(mode))
 
 
